@@ -71,6 +71,15 @@ def completeLine (b : Bytes) : Bool :=
   | 0x0A :: rb => let body := rb.reverse; !body.contains 0x0A && Json.accepts body
   | _ => false
 
+/-- Does the byte stream hold a line that cannot be delivered: `n` bytes before its LF (or before
+    the end of input) with `n + 1 > maxSize`? -/
+def hasOverLongLine (maxSize : Nat) (bs : Bytes) : Bool :=
+  let (run, found) := bs.foldl (fun (acc : Nat × Bool) c =>
+    if acc.2 then acc
+    else if c == 0x0A then (0, acc.1 + 1 > maxSize)
+    else (acc.1 + 1, false)) (0, false)
+  found || run + 1 > maxSize
+
 /-- C08 on the implementation's observation. -/
 def c08Violation (revs : List ReadEv) (wevs : List WriteEv) (proc : Proc) (maxSize : Nat)
     (ret : Option String) (calls : List (Bool × String)) (writes : List Bytes) : Option String :=
@@ -80,6 +89,7 @@ def c08Violation (revs : List ReadEv) (wevs : List WriteEv) (proc : Proc) (maxSi
   -- fatal error (then `ret` is set); an unrelated error of an earlier line does not count
   let reported := ret.isSome || calls.any (fun c => c.2 == "io" || c.2 == "too-long" || c.2 == "no-progress")
   if readerFails && !reported then some "reader-failure-swallowed"
+  else if !readerFails && hasOverLongLine maxSize (readerBytes revs).1 && !reported then some "oversize-line-swallowed"
   else
     -- writes: every write before the first failing one is a complete line
     let failIdx : Option Nat := wevs.findIdx? fun w => match w with | .ok => false | _ => true
@@ -92,7 +102,7 @@ def c08Violation (revs : List ReadEv) (wevs : List WriteEv) (proc : Proc) (maxSi
         if writes.length > i + 1 then some "write-after-fatal-failure"
         else if writes.length == i + 1 && ret.isNone then some "write-failure-swallowed"
         else none
-      | _, _ => let _ := maxSize; none
+      | _, _ => none
 
 def runStream (prop tiS toS procS readerS writerS extS implS : String) : Result :=
   let env : Env := ⟨genTables, parseExt extS⟩
